@@ -19,7 +19,7 @@ def run(ctx):
         return [c for c in fl.gen_location(tier, rng) if fl.Location().in_domain(c)]
     import crosscut as cc
     return adapters.simple_run(
-        ctx, [(fl.Location(), gen)], blocks=(cc.layout_block, cc.reuse_block, cc.carrier_block),
+        ctx, [(fl.Location(), gen)], blocks=(cc.layout_block, cc.reuse_block, cc.carrier_block, cc.fine_block),
         rule="tracks n<=3 (thorough 4) over positions inside / on each edge / outside the box, antimeridian-adjacent "
              "longitudes, all independent missing patterns in lon and lat, default/custom/degenerate boxes, range_max in "
              "{None, tiny, between hops, exactly a hop, huge}; n=0,1; shape mismatch and bad bbox arity. "
